@@ -1507,6 +1507,7 @@ func (n *FunctionNode) MarshalJSON() ([]byte, error) {
 	props := JSONNode{}.
 		Type("func").
 		SetFunctionType("functionType", n.Type).
+		Set("func", n.Func).
 		Set("args", n.Args)
 	return json.Marshal(&props)
 }
@@ -1523,6 +1524,13 @@ func (n *FunctionNode) unmarshal(props JSONNode) error {
 
 	if n.Type, err = props.FunctionType("functionType"); err != nil {
 		return err
+	}
+
+	// The name is optional so that documents written before it was serialized still decode.
+	if props.Has("func") {
+		if n.Func, err = props.String("func"); err != nil {
+			return err
+		}
 	}
 
 	return nil
